@@ -18,6 +18,54 @@ def f_of(bits):
     return struct.unpack(">d", bytes.fromhex(bits))[0]
 
 
+def go_float(tok):
+    """(value, range error) as strconv.ParseFloat reads the spellings used here"""
+    t = tok.decode()
+    try:
+        if t.lower().lstrip("+-").startswith("0x"):
+            return float.fromhex(t), False
+        v = float(t)
+    except (ValueError, OverflowError):
+        return None, True
+    inf_like = t.lower().lstrip("+-") in ("inf", "infinity")
+    return v, (v in (float("inf"), float("-inf")) and not inf_like)
+
+
+class WrapEmulation:
+    """client_golang's counter: integral increments below 2^64 go to a uint64 (wrapping), the others to a float.
+    Used only to recognise the known finding counter-uint64-wrap: a decrease at a scrape since whose predecessor the
+    integer part of that very series wrapped."""
+
+    def __init__(self, scale):
+        self.scale = scale
+        self.ints = {}
+        self.wrapped = set()
+
+    def line(self, l):
+        name, rest = l.split(b":", 1)
+        parts = rest.split(b"|")
+        v, err = go_float(parts[0])
+        if v is None or err:
+            return
+        for c in parts[2:]:
+            if c[:1] == b"@":
+                r, _ = go_float(c[1:])
+                if r is None:
+                    r = 0.0
+                if r == 0:
+                    r = 1.0
+                v = v / r
+        if name.startswith(b"c.") and self.scale is not None:
+            v = v * self.scale
+        if v != v or v < 0 or v >= 2.0 ** 64 or v != int(v):
+            return
+        cur = self.ints.get(name, 0) + int(v)
+        if cur >= 2 ** 64:
+            self.wrapped.add(name.replace(b".", b"_"))
+            cur -= 2 ** 64
+        self.ints[name] = cur
+
+
 def gen_case(rnd):
     sc = rnd.choice(SCALES)
     rules = [GM.rule(b"c.*", b"c_$1", scale=sc, help=b"r0", labels=[(b"env", b"x")] if rnd.random() < 0.3 else [])]
@@ -31,16 +79,19 @@ def gen_case(rnd):
         if r is not None:
             l += b"|@" + r
         ops += [PE.I(l), "G"]
-    return (15, ("none", 0), ops, dict(nbig=nbig, scale=repr(sc)))
+    return (15, ("none", 0), ops, dict(nbig=nbig, scale=repr(sc), scale_value=sc))
 
 
 def monitor(rep, case, impl, model, payload):
     fl, cache, ops, meta = case
     prev = {}
     moved = False
+    emu = WrapEmulation((meta or {}).get("scale_value"))
     for k, (o, i) in enumerate(zip(ops, impl)):
         if "PANIC" in i:
             rep.violation("panic", dict(payload, op_index=k, impl=i)); return
+        if o.startswith("I "):
+            emu.line(vf.unhex(o[2:]))
         if o != "G":
             continue
         g = PE.parse_gather(i)
@@ -57,20 +108,21 @@ def monitor(rep, case, impl, model, payload):
                     rep.violation("a counter is NaN", dict(payload, op_index=k, series=[nm.decode(), lab], prefix=PC.describe(ops[:k + 1]))); return
                 p = prev.get((nm, lab))
                 if p is not None and v < p:
-                    if meta and meta.get("nbig", 0) >= 2 and rep.known(KF_WRAP):
+                    if nm in emu.wrapped and rep.known(KF_WRAP):
                         return
                     rep.violation("a counter decreased between two scrapes",
                                   dict(payload, op_index=k, series=[nm.decode(), lab], before=p, after=v, prefix=PC.describe(ops[:k + 1]))); return
                 if p is not None and v > p:
                     moved = True
         prev = cur
+        emu.wrapped.clear()
     if moved:
         rep.nontrivial(tuple(ops))
 
 
 def run(rep, tier, seed, replay):
-    extra = [(15, ("none", 0), [PE.I(b"w:1e19|c"), "G", PE.I(b"w:1e19|c"), "G"], dict(nbig=2, scale="None")),
-             (15, ("none", 0), [PE.I(b"n:1|c"), "G", PE.I(b"n:NaN|c"), "G", PE.I(b"n:1|c|@nan"), "G", PE.I(b"n:-1|c|@-1"), "G"], dict(nbig=0, scale="None"))]
+    extra = [(15, ("none", 0), [PE.I(b"w:1e19|c"), "G", PE.I(b"w:1e19|c"), "G"], dict(nbig=2, scale="None", scale_value=None)),
+             (15, ("none", 0), [PE.I(b"n:1|c"), "G", PE.I(b"n:NaN|c"), "G", PE.I(b"n:1|c|@nan"), "G", PE.I(b"n:-1|c|@-1"), "G"], dict(nbig=0, scale="None", scale_value=None))]
     PC.run(rep, "C06", tier, seed, replay, gen_case, monitor, 700, 40000,
            "%(n)d counter histories of 3-20 lines with values and sampling rates from finite, negative, signed-zero, huge (2^63, 2^64-1, 1e19, 1e308), denormal, "
            "Inf and NaN spellings and rule scale factors incl. 0, -0, negative, NaN, +-Inf; value observed at every prefix; non-trivial = history in which some "
